@@ -19,6 +19,7 @@ appended to the external trace in :mod:`pv.world` (keyed by pid), never to proce
 """
 
 import asyncio
+import copy
 import hashlib
 import json
 
@@ -302,13 +303,14 @@ class ProgBase(HookMixin, ContextMixin, Process):
     def _item(self, idx, item):
         kind = item[0]
         if kind == 'out':
+            before = copy.deepcopy(self.outputs) if self.PROGRAM.get('snapshot_outputs') else None
             try:
                 self.out(item[1], dec(item[2]))
-                self._t('out', idx, port=item[1], value=item[2], ok=True)
+                self._t('out', idx, port=item[1], value=item[2], ok=True, outputs=copy.deepcopy(self.outputs) if before is not None else None)
             except Exception as exc:  # noqa: BLE001 - recorded, the oracle decides
                 if isinstance(exc, InjectedFault):
                     raise
-                self._t('out', idx, port=item[1], value=item[2], ok=False, err=type(exc).__name__)
+                self._t('out', idx, port=item[1], value=item[2], ok=False, err=type(exc).__name__, outputs=copy.deepcopy(self.outputs) if before is not None else None, unchanged=(before == self.outputs) if before is not None else None)
                 if self.PROGRAM.get('out_errors_propagate'):
                     raise
         elif kind == 'ctx':
